@@ -36,14 +36,10 @@ fn obs_idx(lru: &LruIndex<u64>, nk: u64) -> Value {
     json!({"order": recent(lru, HUGE, 0), "len": lru.len(), "has": has, "rq": rq})
 }
 
-fn run_idx(b: &Value) -> Value {
+fn run_idx(bi: usize, b: &Value) -> Value {
     let nk = b["nk"].as_u64().unwrap();
-    // with_capacity / default differ only in the HashMap's initial allocation; alternate by cap field
-    let mut lru: LruIndex<u64> = if b["cap"].as_u64().unwrap_or(0) == 0 {
-        LruIndex::default()
-    } else {
-        LruIndex::with_capacity(b["cap"].as_u64().unwrap() as usize)
-    };
+    // with_capacity / default differ only in the HashMap's initial allocation; alternate
+    let mut lru: LruIndex<u64> = if bi % 2 == 0 { LruIndex::default() } else { LruIndex::with_capacity(1 + bi % 7) };
     let obs0 = obs_idx(&lru, nk);
     let mut steps = Vec::new();
     for s in b["steps"].as_array().unwrap() {
@@ -127,18 +123,14 @@ fn run_cache(b: &Value) -> Value {
 pub fn main(args: &[String]) -> Res<()> {
     let beh = read_jsonl(&arg(args, "--behaviours").ok_or("--behaviours")?)?;
     let out = arg(args, "--out").ok_or("--out")?;
+    let threads: usize = arg(args, "--threads").map(|s| s.parse().unwrap()).unwrap_or(4);
     let t = std::time::Instant::now();
-    let mut calls = 0usize;
-    let chunks: Vec<Vec<String>> = beh
-        .iter()
-        .enumerate()
-        .map(|(i, b)| {
-            calls += b["steps"].as_array().map(|a| a.len()).unwrap_or(0);
-            let mut r = if b["kind"].as_str() == Some("cache") { run_cache(b) } else { run_idx(b) };
-            r["run"] = json!(i);
-            vec![r.to_string()]
-        })
-        .collect();
+    let calls: usize = beh.iter().map(|b| b["steps"].as_array().map(|a| a.len()).unwrap_or(0)).sum();
+    let chunks = par_map(&beh, threads, |i, b| {
+        let mut r = if b["kind"].as_str() == Some("cache") { run_cache(b) } else { run_idx(i, b) };
+        r["run"] = json!(i);
+        vec![r.to_string()]
+    });
     let n = write_lines(&out, &chunks)?;
     println!("{}", json!({"behaviours": n, "calls": calls, "wall_ms": t.elapsed().as_millis() as u64}));
     Ok(())
